@@ -540,7 +540,9 @@ func (h *inst) menu() []action {
 	if h.published < h.cfg.Manifests {
 		m = append(m, action{fmt.Sprintf("manifest:v%d", h.published+1), h.publishManifest})
 	}
-	if h.cfg.Close && !h.closed && (h.cfg.SecondLease == "" || !h.publishedB || h.bAnswered()) {
+	// (two leases: A's close waits until B's hostname request has been answered - observed through the
+	// reservation counter, or, bounded by quiescence, because a quiescent system has answered it)
+	if h.cfg.Close && !h.closed && (h.cfg.SecondLease == "" || !h.publishedB || h.bAnswered() || vs.Quiescent()) {
 		m = append(m, action{"lease-closed", h.publishClosed})
 	}
 	if h.cfg.SecondLease != "" {
